@@ -107,7 +107,7 @@ def oracle(c, io):
         return f"pipeline result has length {len(xs)} / non-finite values"
     if after["rx"] != before["x"] or after["ry"] != before["y"]:
         return "the reference is not the untouched series the pipeline started from"
-    scale = max(1.0, max(abs(v) for v in ry))
+    scale = max([abs(v) for v in ry] + [abs(v) for v in ys] + [1e-300])     # relative to the data's own magnitude
     for q in range(m - 1):
         sx, sy = xs[q * n:(q + 1) * n + 1], ys[q * n:(q + 1) * n + 1]
         if target == "trapezoid":
